@@ -28,13 +28,14 @@ os.environ['TZ'] = 'VRF-05:45'
 time.tzset()
 
 import common  # noqa: E402
+import floatref  # noqa: E402
 import pyfacts  # noqa: E402
 import yaql  # noqa: E402
 from dateutil import tz as dtz  # noqa: E402
 from yaql.language import factory  # noqa: E402
 
 ID = 'C20'
-LEAN_MODULES = ['Yaql.Props.C20', 'Yaql.Props.C20Cal', 'Yaql.Props.C20Gen']
+LEAN_MODULES = ['Yaql.Props.C20', 'Yaql.Props.C20Cal', 'Yaql.Props.C20Gen', 'Yaql.Props.C20Float', 'Yaql.Props.FloatRound']
 REQUIRED_THEOREMS = [
     'Yaql.Props.C20.add_sub', 'Yaql.Props.C20.compare_instants', 'Yaql.Props.C20.utc_same_instant',
     'Yaql.Props.C20.timestamp_roundtrip', 'Yaql.Props.C20.naive_is_utc', 'Yaql.Props.C20.naive_is_utc_fields',
@@ -42,11 +43,19 @@ REQUIRED_THEOREMS = [
     'Yaql.Props.C20Cal.ord2ymd_ymd2ord', 'Yaql.Props.C20Cal.ymd2ord_ord2ymd', 'Yaql.Props.C20Cal.build_fields',
     'Yaql.Props.C20Cal.date_time_split',
     'Yaql.Props.C20Gen.datetime_params_convert', 'Yaql.Props.C20Gen.modelled_signatures',
+    'Yaql.Props.C20.units_float', 'Yaql.Props.C20.tsUnitF_single', 'Yaql.Props.C20.tsUnitF_exact', 'Yaql.Props.C20.tsUnitF_mono',
+    'Yaql.Props.C20.tsUnitF_value', 'Yaql.Props.C20.timestamp_float', 'Yaql.Props.C20.timestamp_float_roundtrip',
+    'Yaql.Props.C20.tsDivTs_float',
+    'Yaql.Props.FloatRound.roundRat_nearest', 'Yaql.Props.FloatRound.roundRat_exact', 'Yaql.Props.FloatRound.roundRat_tie_even',
+    'Yaql.Props.FloatRound.roundRat_mono', 'Yaql.Props.FloatRound.roundRat_congr', 'Yaql.Props.FloatRound.divBits_pos',
 ]
 TRUSTED = ['CPython datetime/timedelta as the carrier of the real values (fixed-offset tzinfo only)',
-           'the platform float steps: float(int), int / float, float -> microseconds rounding of '
-           'datetime.fromtimestamp and timedelta(microseconds=float) (the harness only feeds inputs on which these '
-           'agree with exact rational rounding, and counts the ones it had to skip)',
+           'the platform float steps that CONSUME a float: float -> microseconds rounding of datetime.fromtimestamp and '
+           'timedelta(microseconds=float), and ts * float / ts / number (the harness only feeds inputs on which these '
+           'agree with exact rational rounding, and counts the ones it had to skip).  NOT trusted any more: the float '
+           'steps that PRODUCE the float-valued results - float(int), int / int, float / float of the unit properties, '
+           '.timestamp and ts / ts are modelled (FloatRound.roundRat / divBits, proved correctly rounded) and compared bit '
+           'for bit',
            'harness/gens/datetimedefs.py reads the declared parameter types of the live registrations']
 ASSUMPTIONS = ['tzinfo objects are fixed-offset (dateutil tzutc/tzoffset, datetime.timezone, a custom fixed class); '
                'DST zones with PEP 495 folds are outside the model',
@@ -1220,6 +1229,9 @@ def run(env, res):
 
     if env['replay']:
         rp = json.load(open(env['replay']))['case']
+        if rp.get('section') == 'floatround':
+            floatref.replay(env, res, rp)
+            return res
         if rp['kind'] == 'tree':
             t = rp['tree']
             res.case(common.digest(t), True, sample=to_yaql(t, {}))
@@ -1283,8 +1295,9 @@ def run(env, res):
                 report_tree(t, j)
                 if len(res.failures) >= 12:
                     break
+    fr_hist = floatref.run_section(env, res, ID, 500 if tier == 'quick' else 6000)
     res.extra['histogram'] = dict(constructs=dict(sorted(hist.items())), outcomes=dict(sorted(out_kinds.items())),
-                                  law_instances=law_hist, trees=done)
+                                  law_instances=law_hist, trees=done, floatround=fr_hist)
     return res
 
 
@@ -1294,7 +1307,12 @@ LEVEL_TEXT = ('Lean 4 theorems over a code-shaped model of date_time.py on top o
               '(d + t) - t = d, (d + t) - d = t, d2 - (d2 - d1) = d1; = != < <= > >= on datetimes are those of the '
               'instants; d.utc is the same instant at offset zero; datetime(s, o).timestamp = s and '
               'datetime(d.timestamp, d.offset) = d on microsecond-exact rationals; the unit properties are exact '
-              'rationals of one microsecond count and timespan(microseconds => x.microseconds) = x; a value without '
+              'rationals of one microsecond count and timespan(microseconds => x.microseconds) = x; the DOUBLES returned are '
+              'modelled too (C20Float over FloatRound.roundRat, the correctly rounded rational -> binary64 conversion proved '
+              'nearest / ties-to-even / exact / monotone): x.hours is float(x.microseconds) / 3600000000.0 - two correctly rounded '
+              'steps, one rounding of the exact quotient up to 2**53 us (units_float, tsUnitF_single), exact on whole units, '
+              'monotone for all x; .timestamp is ONE correctly rounded division microseconds / 10**6 (timestamp_float) and '
+              'datetime(s, o).timestamp is the double s itself for microsecond-exact s (timestamp_float_roundtrip); a value without '
               'zone is treated as the same wall clock at UTC by every function whose parameter is declared '
               'yaqltypes.DateTime(), and the field readers do not depend on the zone; the transcribed calendar is a '
               'bijection between the dates of years 1..9999 and their ordinals, so datetime(y, m, d, ...) is read back '
@@ -1305,8 +1323,11 @@ LEVEL_TEXT = ('Lean 4 theorems over a code-shaped model of date_time.py on top o
               'also checked on real results alone and against Python\'s own aware datetime arithmetic.')
 LEVEL_NOTE = ('trusted: Lean kernel; hand-written model Yaql/Model/DateTime.lean (offsets in microseconds, fixed-offset '
               'zones, calendar transcribed from CPython _pydatetime - proved to be a bijection dates <-> ordinals in C20Cal); the '
-              'float division/rounding steps of the platform are explicit: theorems speak of exact rationals, the '
-              'harness compares floats with the correctly rounded rational within 1 ulp and feeds float inputs only '
-              'where platform rounding equals exact rounding.  format/parse, now, localtz are not modelled.')
+              'float-valued results (unit properties, .timestamp, ts / ts) are computed by the model as IEEE doubles '
+              '(float(int), int / int and float / float = FloatRound.roundRat / divBits) and compared with the real results BIT FOR '
+              'BIT; the property-level oracle on the real code alone keeps "up to float rounding" (1 ulp, 3 ulps beyond 2**53 us). '
+              'Still outside the model: the float -> microseconds rounding of fromtimestamp / timedelta(microseconds=float) and '
+              'ts * float, ts / number (inputs fed only where platform rounding equals exact rounding).  format/parse, now, '
+              'localtz are not modelled.')
 TECHNIQUE = 'Lean 4 proof (linear integer arithmetic) + kernel-decided table of declared parameter types + differential evaluation of expression trees'
 DESIGN_REF = 'DESIGN.md section 5, C20'
